@@ -5,6 +5,7 @@ import (
 	"math/rand/v2"
 	"strings"
 	"sync"
+	"time"
 
 	"github.com/lugu/qiloop/bus"
 	probe "github.com/lugu/qiloop/zzprobe"
@@ -35,6 +36,7 @@ func (c06) Gen(r *rand.Rand, tier string, run int) *core.Case {
 		c.Net.ReadMode = "random"
 	}
 	c.Params["authenticator"] = r.IntN(4) // 0 dictionary, 1 yes, 2 no, 3 predicate
+	c.Params["auth_ms"] = []int{0, 0, 0, 40, 700, 1200, 2500}[r.IntN(7)]
 	c.Params["stream_names"] = []int{0, 0, 0, 1, 1, 2, 3, 4}[r.IntN(8)]
 	hostiles := 1 + r.IntN(2)
 	c.Params["hostiles"] = hostiles
@@ -64,6 +66,17 @@ type c06pred struct{}
 
 func (c06pred) Authenticate(user, token string) bool {
 	return user != "" && token == "T-"+user
+}
+
+// c06slow is an authenticator that takes its (simulated) time to decide.
+type c06slow struct {
+	inner bus.Authenticator
+	ms    int
+}
+
+func (a c06slow) Authenticate(user, token string) bool {
+	time.Sleep(time.Duration(a.ms) * time.Millisecond)
+	return a.inner.Authenticate(user, token)
 }
 
 type c06sent struct {
@@ -111,7 +124,13 @@ func (c06) Run(c *core.Case, env *core.Env) {
 	default:
 		st.auth = c06pred{}
 	}
-	w, err := StartServer(env, st.auth, 2)
+	var serverAuth bus.Authenticator = st.auth
+	if ms := c.P("auth_ms", 0); ms > 0 {
+		// the verdicts take time (a remote database...): requests queue up
+		// behind each other at service zero meanwhile
+		serverAuth = c06slow{st.auth, ms}
+	}
+	w, err := StartServer(env, serverAuth, 2)
 	if err != nil {
 		env.Violate("harness/setup", "%v", err)
 		return
